@@ -6,6 +6,9 @@ import "github.com/aead/siphash"
 // zzStubFastReduction: contract of fastReduction established by ZZ_C14_fastreduction:
 // floor(v*NM/2^64), which is < NM (and 0 when NM = 0).
 func zzStubFastReduction(v, nHi, nLo uint64) uint64 {
+	if !vSymbolic() {
+		return fastReduction(v, nHi, nLo) // native replay: the real routine
+	}
 	nm := nHi<<32 | nLo
 	r := vUF64("fastreduction", v, nm, 0)
 	vAssume(r < nm || (nm == 0 && r == 0))
